@@ -127,6 +127,7 @@ fn tag(t: &mut Tape, style: usize, salt: usize) -> String {
         0 => t.draw(8),
         1 => 200 + t.draw(120),  // forces one growth step
         2 => 600 + t.draw(600),  // several
+        4 => 900 + t.draw(400),  // long chains of these make bursts of 100 kB and more
         _ => [t.draw(8), 200 + t.draw(120), t.draw(40)][t.draw(3)],
     };
     let alphabet = b"abcdefghijklmnopqrstuvwxyz";
@@ -146,7 +147,8 @@ fn gen_scenario(t: &mut Tape, borrowed: bool) -> Scenario {
     } else {
         1 + t.draw(6)
     };
-    let max_cont = if scale == 14 { 70 } else { 4 };
+    let max_cont = if scale == 14 { 200 } else { 4 };
+    let size_style = if scale >= 14 && t.draw(2) == 1 { 4 } else { size_style };
     let mut calls = Vec::new();
     let mut owed = Vec::new();
     let mut salt = 0usize;
@@ -191,6 +193,14 @@ fn gen_scenario(t: &mut Tape, borrowed: bool) -> Scenario {
     Scenario { calls, owed, foreign, via_proxy }
 }
 
+fn clip(s: &str) -> String {
+    if s.len() > 160 {
+        format!("{}… ({} chars)", s.chars().take(160).collect::<String>(), s.len())
+    } else {
+        s.to_string()
+    }
+}
+
 fn call_for(i: usize, k: CallKind) -> Call<MethOut> {
     Call::new(MethOut::Get { id: i as u32 }).set_oneway(k == CallKind::Oneway).set_more(k == CallKind::More)
 }
@@ -212,8 +222,8 @@ fn expected_call_json(i: usize, k: CallKind, via_proxy: bool) -> Value {
 struct Held<'c> {
     item: zlink_core::Result<zlink_core::reply::Result<RepIn<'c>, ErrIn<'c>>>,
     rendered_at_yield: String,
-    gen_at_yield: u64,
-    data_reads_at_yield: u64,
+    /// Index into the world's watch list if the item borrows from the buffer.
+    watch: Option<usize>,
 }
 
 impl Prop for ChainProp {
@@ -281,6 +291,8 @@ impl Prop for ChainProp {
             let rd = w.new_pipe();
             let wr = w.sink_pipe();
             w.watch_class = "C11/changed-without-transport-read";
+            w.watch_moved_class = "C11/reallocated-by-later-transport-read";
+            w.watch_moved_without_read_class = "C11/reallocated-without-transport-read";
             // the server answers only after it has seen all calls of the chain
             let mut bytes = Vec::new();
             for o in sc.owed.iter().chain(sc.foreign.iter()) {
@@ -315,6 +327,7 @@ impl Prop for ChainProp {
 
         {
             let mut conn = Connection::new(W::socket(world, rd, wr));
+            world.borrow_mut().pipes[rd].conn_id = Some(conn.id());
             let mut ex = Exec::new();
             let prog2 = prog.clone();
             let sc2 = sc.clone();
@@ -328,21 +341,29 @@ impl Prop for ChainProp {
                         let w = world2.borrow();
                         let pipe = &w.pipes[rd];
                         for (k, h) in held.iter().enumerate() {
-                            if pipe.realloc_gen != h.gen_at_yield {
-                                return Some((
-                                    "C11/reallocated-by-later-transport-read".into(),
-                                    format!("{when}: the receive buffer was grown or reallocated by a transport read issued after item {k} was yielded, while that item (borrowing from the buffer) is still held; not dereferenced"),
-                                ));
+                            // Only look at memory that is known to be inside the buffer's live
+                            // allocation: the item's region was bound to the allocation confirmed
+                            // at a transport read, that allocation is still the confirmed one, and
+                            // no read has filled its window since (the reader grows its buffer
+                            // after such a read, possibly moving it; the next transport read will
+                            // tell). Items yielded since the last confirmation are in the current
+                            // allocation by construction.
+                            if let Some(wi) = h.watch {
+                                let wt = &w.watches[wi];
+                                let safe = !wt.moved && !pipe.maybe_grown && (wt.base.is_none() || wt.base == pipe.confirmed_base);
+                                if !safe {
+                                    continue;
+                                }
                             }
                             let now = render_item(&h.item);
                             if now != h.rendered_at_yield {
-                                let clobbered = w.watches.iter().any(|wt| wt.label == k && wt.clobbered);
+                                let clobbered = h.watch.map(|wi| w.watches[wi].clobbered).unwrap_or(false);
                                 let class = if clobbered {
                                     "C11/overwritten-by-later-transport-read"
                                 } else {
                                     "C11/changed-without-transport-read"
                                 };
-                                return Some((class.into(), format!("{when}: held item {k} was {} when yielded and now reads {}", h.rendered_at_yield, now)));
+                                return Some((class.into(), format!("{when}: held item {k} was {} when yielded and now reads {}", clip(&h.rendered_at_yield), clip(&now))));
                             }
                         }
                         if held.len() >= 1 {
@@ -369,10 +390,6 @@ impl Prop for ChainProp {
                                         world2.borrow_mut().ev("chain.item", prog2.borrow().yielded.len() as u64, 0);
                                         prog2.borrow_mut().yielded.push(r.clone());
                                         if borrowed {
-                                            let (e, d) = {
-                                                let w = world2.borrow();
-                                                (w.pipes[rd].realloc_gen, w.pipes[rd].data_reads)
-                                            };
                                             if let Some(f) = check_held(&held, "after obtaining a further item") {
                                                 prog2.borrow_mut().fail = Some(f);
                                                 return;
@@ -383,13 +400,16 @@ impl Prop for ChainProp {
                                                     Ok(Err(ErrIn::Bad { why, .. })) => Some(*why),
                                                     _ => None,
                                                 };
+                                                let mut watch = None;
                                                 if let Some(t) = text {
                                                     if !t.is_empty() {
-                                                        world2.borrow_mut().watches.push(crate::world::Watch { pipe: rd, ptr: t.as_ptr() as usize, len: t.len(), expect: t.as_bytes().to_vec(), gen: e, clobbered: false, label: held.len() });
+                                                        let mut w = world2.borrow_mut();
+                                                        w.watches.push(crate::world::Watch::new(rd, t, held.len()));
+                                                        watch = Some(w.watches.len() - 1);
                                                     }
                                                 }
+                                                held.push(Held { item: it, rendered_at_yield: r, watch });
                                             }
-                                            held.push(Held { item: it, rendered_at_yield: r, gen_at_yield: e, data_reads_at_yield: d });
                                         }
                                         if prog2.borrow().yielded.len() > sc2.owed.len() + 3 {
                                             break; // runaway guard; the oracle reports the surplus
@@ -574,7 +594,7 @@ impl Prop for ChainProp {
         if self.borrowed {
             "Each execution = one chain (or proxy streaming call) whose reply and error types borrow &str from the connection's receive buffer, a scripted conforming server, reply sizes that stay inside the initial 256 bytes / force one growth step / several, and one delivery schedule (one read for all, one read per reply, random pieces, short reads). The harness keeps every yielded item, and after each further item and at the end re-reads all held strings. The read seam reports the end address of the buffer it is handed: if it changed since an item was yielded the item is reported without being dereferenced. Non-trivial = a partial delivery / short read happened; distinct = distinct event-sequence hash.".into()
         } else {
-            "Each execution = one chain of 1..6 calls (one in sixteen: 20..150 calls; one in sixteen: `more` calls with up to 69 continuing replies) over {plain, oneway, more} (or one proxy #[zlink(more)] call), a scripted conforming server (success, declared error, unit error, k<=3 continuing replies then final reply or error), 0..2 frames of a later exchange behind the owed replies, and one delivery schedule. Systematic part: every chain of up to 3 (quick) / 4 (thorough) calls x 4 reply styles per call x {one read, frame by frame, byte by byte}. Oracle: one write with the calls in order and right flags; items = owed replies in order; stream ends without needing another transport read (quiescence with the stream still pending = blocked on an unowed reply); later frames intact for an ordinary receive. Non-trivial = a partial delivery, short read, stall or spurious poll happened.".into()
+            "Each execution = one chain of 1..6 calls (one in sixteen: 20..150 calls; one in sixteen: `more` calls with up to 199 continuing replies; half of these long scenarios with ~1 kB replies, i.e. reply bursts of 100..250 kB) over {plain, oneway, more} (or one proxy #[zlink(more)] call), a scripted conforming server (success, declared error, unit error, k<=3 continuing replies then final reply or error), 0..2 frames of a later exchange behind the owed replies, and one delivery schedule. Systematic part: every chain of up to 3 (quick) / 4 (thorough) calls x 4 reply styles per call x {one read, frame by frame, byte by byte}. Oracle: one write with the calls in order and right flags; items = owed replies in order; stream ends without needing another transport read (quiescence with the stream still pending = blocked on an unowed reply); later frames intact for an ordinary receive. Non-trivial = a partial delivery, short read, stall or spurious poll happened.".into()
         }
     }
 
